@@ -1,5 +1,6 @@
 import TexcraftModel.Model.C08
 import TexcraftModel.Lemmas.C08Bisim
+import TexcraftModel.Model.C08Input
 
 /-! C08 — run-level lemmas: reachable states satisfy C20's invariant on both command maps;
 `run` over an appended program; soundness of the driver's concrete name table. -/
@@ -76,5 +77,185 @@ theorem stdTable_sound : NameTableSound stdTable := by
            simp only [e1, e2, e3, e4, e5, e6, e7, if_false, if_true, and_self]
            congr 2; omega
          · cases h)
+
+/-! ## The pending `\global` flag is `Local` between operations
+
+`prefix::Component.scope` is set by `\global` and consumed by the very next assignment or
+definition (`read_and_reset_global`); a `\global` with nothing after it is an end-of-input error,
+so a VM whose run returned `Ok` — the only VMs a checkpoint is taken of — has the flag `Local`.
+In the model: every operation of C01's `step` leaves `scopeBit = .loc`. This is why a
+deserialiser that forgets the flag (mutant 21 of the sweep) is equivalent. -/
+
+theorem hook_scope (m : VMState) (pre : Nat) (h : m.scopeBit = .loc) :
+    (readAndResetGlobal (applyPrefix pre m)).2.scopeBit = .loc := by
+  unfold readAndResetGlobal applyPrefix prefixGlobal setScope
+  by_cases hp : pre = 0
+  · simp only [hp, if_true]
+    repeat' split
+    all_goals first | rfl | exact h
+  · simp only [hp, if_false]
+    by_cases hg : globalDefs m = 0
+    · have hg' : globalDefs { m with scopeBit := Scope.glob } = 0 := hg
+      simp only [hg, if_true, hg']
+      repeat' split
+      all_goals first | rfl | omega
+    · have hg' : globalDefs { m with scopeBit := Scope.loc } = globalDefs m := rfl
+      simp only [hg, if_false, hg']
+      repeat' split
+      all_goals rfl
+
+theorem setVar_scope (cfg : Variant) (m : VMState) (v : Var) (x : Val) (sc : Scope) :
+    (setVar cfg m v x sc).scopeBit = m.scopeBit := by
+  unfold setVar updateSaveStack
+  cases hs : m.save with
+  | nil => simp
+  | cons g gs => cases sc <;> simp
+
+theorem insertCmd_scope (m : VMState) (t : CTarget) (c : Cmd) (sc : Scope) :
+    (insertCmd m t c sc).scopeBit = m.scopeBit := by
+  cases t <;> rfl
+
+theorem step_scope (cfg : Variant) (m : VMState) (op : C01.Op) (h : m.scopeBit = .loc) :
+    (C01.step cfg m op).1.scopeBit = .loc := by
+  cases op with
+  | beginGroup => simpa [C01.step, C01.beginGroup, mapBeginGroup] using h
+  | endGroup =>
+    simp only [C01.step]
+    cases he : C01.endGroup cfg m with
+    | errNoGroup => simpa using h
+    | panic => simpa using h
+    | ok m' =>
+      simp only []
+      unfold C01.endGroup mapEndGroup at he
+      cases hc : m.cmds.endGroup with
+      | none => simp [hc] at he
+      | some c' =>
+        by_cases hB : cfg.fixB = true
+        · cases ha : m.active.endGroup with
+          | none => simp [hc, hB, ha] at he
+          | some a' =>
+            simp only [hc, hB, ha, if_true] at he
+            cases hs : m.save with
+            | nil => simp [hs] at he
+            | cons g gs =>
+              cases hf : m.fontSave with
+              | nil => simp [hs, hf] at he
+              | cons o fs =>
+                cases o <;> simp only [hs, hf] at he <;> (injection he with he; subst he; exact h)
+        · have hB' : cfg.fixB = false := by simpa using hB
+          simp only [hc, hB', Bool.false_eq_true, if_false] at he
+          cases hs : m.save with
+          | nil => simp [hs] at he
+          | cons g gs =>
+            cases hf : m.fontSave with
+            | nil => simp [hs, hf] at he
+            | cons o fs =>
+              cases o <;> simp only [hs, hf] at he <;> (injection he with he; subst he; exact h)
+  | assign pre v x =>
+    simp only [C01.step, C01.assign]
+    rw [setVar_scope]
+    exact hook_scope m pre h
+  | define pre t d =>
+    simp only [C01.step]
+    cases hd : C01.define cfg m pre t d with
+    | none => simpa using h
+    | some m' =>
+      simp only []
+      unfold C01.define at hd
+      split at hd
+      · cases hd
+      · cases hr : resolveDef (readAndResetGlobal (applyPrefix pre m)).2 d with
+        | none =>
+          simp only [hr, Option.some.injEq] at hd
+          subst hd
+          exact hook_scope m pre h
+        | some c =>
+          simp only [hr, Option.some.injEq] at hd
+          subst hd
+          rw [insertCmd_scope]
+          exact hook_scope m pre h
+  | selectFont pre f =>
+    simp only [C01.step, C01.selectFont]
+    exact hook_scope m pre h
+  | read t => simpa [C01.step] using h
+
+/-- Every VM reached by a program has the pending-`\global` flag `Local`. -/
+theorem reachable_scope_local (cfg : Variant) (ops : List C01.Op) :
+    ∀ m : VMState, m.scopeBit = .loc → (C01.run cfg m ops).1.scopeBit = .loc := by
+  induction ops with
+  | nil => intro m h; simpa [C01.run] using h
+  | cons op ops ih =>
+    intro m h
+    have hs := step_scope cfg m op h
+    simp only [C01.run]
+    by_cases hf : (C01.step cfg m op).2.fatal = true
+    · simpa [hf] using hs
+    · simp only [hf]; exact ih _ hs
+
+/-! ## The input stack when `next_unexpanded` says end of input -/
+namespace Input
+
+theorem next_endOfInput (sources : List Src) : ∀ cur : Src,
+    (next sources cur).1 = .endOfInput →
+      (next sources cur).2 = { cur := { expansions := [], lexer := [] }, sources := [] } ∧
+      Stack.remaining { cur := cur, sources := sources } = [] := by
+  induction sources with
+  | nil =>
+    intro cur h
+    obtain ⟨es, l⟩ := cur
+    cases es with
+    | cons t es => simp [next] at h
+    | nil =>
+      cases l with
+      | nil => simp [next, Stack.remaining]
+      | cons x l => cases x <;> simp [next] at h
+  | cons s rest ih =>
+    intro cur h
+    obtain ⟨es, l⟩ := cur
+    cases es with
+    | cons t es => simp [next] at h
+    | nil =>
+      cases l with
+      | cons x l => cases x <;> simp [next] at h
+      | nil =>
+        simp only [next] at h ⊢
+        obtain ⟨h1, h2⟩ := ih s h
+        refine ⟨h1, ?_⟩
+        simpa [Stack.remaining] using h2
+
+/-- `next_unexpanded` delivers exactly the first remaining token and leaves the rest. -/
+theorem next_token (sources : List Src) : ∀ (cur : Src) (t : Nat),
+    (next sources cur).1 = .token t →
+      Stack.remaining { cur := cur, sources := sources } = some t :: (next sources cur).2.remaining := by
+  induction sources with
+  | nil =>
+    intro cur t h
+    obtain ⟨es, l⟩ := cur
+    cases es with
+    | cons a es => simp only [next, Next.token.injEq] at h; subst h; simp [next, Stack.remaining]
+    | nil =>
+      cases l with
+      | nil => simp [next] at h
+      | cons x l =>
+        cases x with
+        | none => simp [next] at h
+        | some a => simp only [next, Next.token.injEq] at h; subst h; simp [next, Stack.remaining]
+  | cons s rest ih =>
+    intro cur t h
+    obtain ⟨es, l⟩ := cur
+    cases es with
+    | cons a es => simp only [next, Next.token.injEq] at h; subst h; simp [next, Stack.remaining]
+    | nil =>
+      cases l with
+      | cons x l =>
+        cases x with
+        | none => simp [next] at h
+        | some a => simp only [next, Next.token.injEq] at h; subst h; simp [next, Stack.remaining]
+      | nil =>
+        simp only [next] at h ⊢
+        have := ih s t h
+        simpa [Stack.remaining] using this
+
+end Input
 
 end C08
